@@ -148,7 +148,7 @@ func (t *codecTr) discipline(name string, body *ast.BlockStmt) {
 		if i := strings.LastIndex(fn, "."); i >= 0 {
 			fn = fn[i+1:]
 		}
-		return strings.HasPrefix(fn, "Write") || strings.HasPrefix(fn, "Read") || fn == "BuildKnowledgeBase"
+		return strings.HasPrefix(fn, "Write") || strings.HasPrefix(fn, "Read") || fn == "BuildKnowledgeBase" || fn == "readBytesFromReader" || fn == "CopyN"
 	}
 	walk = func(list []ast.Stmt) {
 		for i, s := range list {
@@ -169,9 +169,23 @@ func (t *codecTr) discipline(name string, body *ast.BlockStmt) {
 						if rs, isRet := list[j].(*ast.ReturnStmt); isRet && len(rs.Results) > 0 && types.ExprString(rs.Results[len(rs.Results)-1]) == "err" {
 							ok = true
 						}
-						if _, isIf := list[j].(*ast.IfStmt); isIf {
-							ok = ok || isErrCheck(list[j])
-							break
+						if ifs, isIf := list[j].(*ast.IfStmt); isIf {
+							if isErrCheck(list[j]) {
+								ok = true
+								break
+							}
+							// an `if` that only rewrites err (io.EOF -> io.ErrUnexpectedEOF) does not end the search
+							returns := false
+							ast.Inspect(ifs, func(n ast.Node) bool {
+								if _, r := n.(*ast.ReturnStmt); r {
+									returns = true
+								}
+								return true
+							})
+							if returns {
+								break
+							}
+							continue
 						}
 						if c2, a2 := callOf(list[j]); c2 != nil && assignsErr(a2) {
 							break
@@ -343,17 +357,28 @@ func (t *codecTr) readFields(f *ast.File, typ string) []field {
 				pending[lhs0] = "KBool"
 			case fn == "reader.Read" && len(ce.Args) == 1 && types.ExprString(ce.Args[0]) == bytesVar && bytesVar != "":
 				bytesRead = true
-			case fn == "make" && len(ce.Args) == 2:
-				// meta.F = make([]string, n)  |  byteArr := make([]byte, length)
-				el := types.ExprString(ce.Args[0])
+			case fn == "readBytesFromReader" && len(ce.Args) == 2:
+				// byteArr, err := readBytesFromReader(reader, length)
 				n := types.ExprString(ce.Args[1])
 				if pending[n] != "KInt" {
-					t.problem(ce, "%s.ReadMetaFrom: make with a size that was not read from the stream", typ)
+					t.problem(ce, "%s.ReadMetaFrom: readBytesFromReader with a size that was not read from the stream", typ)
 				}
 				delete(pending, n)
+				bytesVar, bytesRead = lhs0, true
+			case fn == "make" && len(ce.Args) == 2:
+				// meta.F = make([]string, 0) (grown by append)  |  meta.F = make([]string, n)  |  byteArr := make([]byte, length)
+				// (a make whose size comes from the stream is reported by the inventory gen_length_driven_makes)
+				el := types.ExprString(ce.Args[0])
+				n := types.ExprString(ce.Args[1])
+				if n != "0" {
+					if pending[n] != "KInt" {
+						t.problem(ce, "%s.ReadMetaFrom: make with a size that was not read from the stream", typ)
+					}
+					delete(pending, n)
+				}
 				if fld, ok := metaField(as.Lhs[0]); ok && el == "[]string" {
 					listField = fld
-				} else if el == "[]byte" {
+				} else if el == "[]byte" && n != "0" {
 					bytesVar = lhs0
 				} else {
 					t.problem(ce, "%s.ReadMetaFrom: unrecognised make", typ)
@@ -389,14 +414,25 @@ func (t *codecTr) readFields(f *ast.File, typ string) []field {
 		case *ast.ForStmt:
 			good := false
 			if listField != "" && len(x.Body.List) >= 2 {
+				// the bound of the loop is a count read from the stream
+				if be, ok := x.Cond.(*ast.BinaryExpr); ok && be.Op == token.LSS {
+					if cnt := types.ExprString(be.Y); pending[cnt] == "KInt" {
+						delete(pending, cnt)
+					}
+				}
 				if ce, as := callOf(x.Body.List[0]); ce != nil && types.ExprString(ce.Fun) == "ReadStringFromReader" {
 					v := types.ExprString(as.Lhs[0])
 					last, ok := x.Body.List[len(x.Body.List)-1].(*ast.AssignStmt)
-					if ok && types.ExprString(last.Rhs[0]) == v {
-						if ie, ok := last.Lhs[0].(*ast.IndexExpr); ok {
+					if ok {
+						rhs := types.ExprString(last.Rhs[0])
+						if ie, ok := last.Lhs[0].(*ast.IndexExpr); ok && rhs == v {
+							// meta.F[index] = s
 							if fld, ok := metaField(ie.X); ok && fld == listField {
 								good = true
 							}
+						} else if fld, ok := metaField(last.Lhs[0]); ok && fld == listField && rhs == "append(meta."+fld+", "+v+")" {
+							// meta.F = append(meta.F, s)
+							good = true
 						}
 					}
 				}
@@ -439,8 +475,12 @@ func (t *codecTr) frame(fd *ast.FuncDecl, write bool) []string {
 					v := types.ExprString(as.Lhs[0])
 					dest := v
 					for j := i + 1; j < len(list) && j <= i+2; j++ {
-						if a2, ok := list[j].(*ast.AssignStmt); ok && len(a2.Rhs) == 1 && types.ExprString(a2.Rhs[0]) == v {
-							dest = types.ExprString(a2.Lhs[0])
+						if a2, ok := list[j].(*ast.AssignStmt); ok && len(a2.Rhs) == 1 {
+							if rhs := types.ExprString(a2.Rhs[0]); rhs == v {
+								dest = types.ExprString(a2.Lhs[0])
+							} else if strings.HasPrefix(rhs, "append(") && strings.HasSuffix(rhs, ", "+v+")") {
+								dest = "append " + types.ExprString(a2.Lhs[0])
+							}
 						}
 					}
 					out = append(out, fn+" "+dest)
@@ -599,7 +639,7 @@ func genCodec(repo string) (string, []string) {
 		}
 		n := fd.Name.Name
 		streamy := n == "ReadCatalogFromReader" || n == "WriteCatalogToWriter" || n == "WriteMetaTo" || n == "ReadMetaFrom" ||
-			(fd.Recv == nil && (strings.HasPrefix(n, "Write") || strings.HasPrefix(n, "Read")))
+			(fd.Recv == nil && (strings.HasPrefix(n, "Write") || strings.HasPrefix(n, "Read") || n == "readBytesFromReader"))
 		if !streamy {
 			continue
 		}
@@ -621,6 +661,98 @@ func genCodec(repo string) (string, []string) {
 	} else {
 		t.problem(nil, "ast/KnowledgeBase.go: %v", err)
 	}
+	// ---- allocation driven by the stream: every make whose size is neither a literal nor a len(..) ----
+	var driven, guarded, rawReads []string
+	for _, d := range f.Decls {
+		fd, ok := d.(*ast.FuncDecl)
+		if !ok || fd.Body == nil {
+			continue
+		}
+		name := fd.Name.Name
+		if fd.Recv != nil && len(fd.Recv.List) == 1 {
+			name = strings.TrimPrefix(types.ExprString(fd.Recv.List[0].Type), "*") + "." + name
+		}
+		var walkBlock func(list []ast.Stmt, guards []string)
+		inspectStmt := func(s ast.Stmt, guards []string) {
+			ast.Inspect(s, func(n ast.Node) bool {
+				if _, isBlock := n.(*ast.BlockStmt); isBlock {
+					return false // nested blocks are walked with their own guards
+				}
+				ce, ok := n.(*ast.CallExpr)
+				if !ok {
+					return true
+				}
+				fn := types.ExprString(ce.Fun)
+				if fn == "make" && len(ce.Args) >= 2 {
+					for _, sz := range ce.Args[1:] {
+						if _, lit := sz.(*ast.BasicLit); lit {
+							continue
+						}
+						if c2, ok := sz.(*ast.CallExpr); ok && types.ExprString(c2.Fun) == "len" {
+							continue
+						}
+						size := types.ExprString(sz)
+						g := ""
+						for _, gd := range guards {
+							if strings.HasPrefix(gd, size+" > ") && strings.Contains(gd, "Len()") {
+								g = gd
+							}
+						}
+						if g != "" {
+							guarded = append(guarded, fmt.Sprintf("%s: %s after if %s { return }", name, types.ExprString(ce), g))
+						} else {
+							driven = append(driven, fmt.Sprintf("%s: %s", name, types.ExprString(ce)))
+						}
+					}
+				}
+				if fn == "io.ReadFull" || fn == "io.CopyN" || fn == "io.ReadAll" || fn == "readBytesFromReader" || strings.HasSuffix(fn, ".Read") {
+					rawReads = append(rawReads, fmt.Sprintf("%s: %s", name, types.ExprString(ce)))
+				}
+				return true
+			})
+		}
+		walkBlock = func(list []ast.Stmt, guards []string) {
+			gs := append([]string(nil), guards...)
+			for _, s := range list {
+				switch x := s.(type) {
+				case *ast.IfStmt:
+					inspectStmt(&ast.ExprStmt{X: x.Cond}, gs)
+					walkBlock(x.Body.List, gs)
+					if eb, ok := x.Else.(*ast.BlockStmt); ok {
+						walkBlock(eb.List, gs)
+					}
+					// `if size > bound { return … }` guards what follows in this block
+					if len(x.Body.List) > 0 {
+						if _, ret := x.Body.List[len(x.Body.List)-1].(*ast.ReturnStmt); ret && x.Else == nil {
+							gs = append(gs, types.ExprString(x.Cond))
+						}
+					}
+				case *ast.ForStmt:
+					walkBlock(x.Body.List, gs)
+				case *ast.RangeStmt:
+					walkBlock(x.Body.List, gs)
+				case *ast.SwitchStmt:
+					for _, c := range x.Body.List {
+						walkBlock(c.(*ast.CaseClause).Body, gs)
+					}
+				case *ast.BlockStmt:
+					walkBlock(x.List, gs)
+				default:
+					inspectStmt(s, gs)
+				}
+			}
+		}
+		walkBlock(fd.Body.List, nil)
+	}
+	// the byte-block helper: its guards, in order
+	var helperGuards []string
+	if fd := findFunc(f, "", "readBytesFromReader"); fd != nil {
+		for _, st := range fd.Body.List {
+			if is, ok := st.(*ast.IfStmt); ok {
+				helperGuards = append(helperGuards, types.ExprString(is.Cond))
+			}
+		}
+	}
 	q := func(xs []string) string {
 		var it []string
 		for _, x := range xs {
@@ -630,6 +762,16 @@ func genCodec(repo string) (string, []string) {
 	}
 	fmt.Fprintf(&b, "\nDefinition gen_unchecked_errors : list string := [%s].\n", q(t.unchecked))
 	fmt.Fprintf(&b, "Definition gen_swallowed_errors : list string := [%s].\n", q(t.swallowed))
+	fmt.Fprintf(&b, "\n(* make(T, n) with n neither a literal nor len(..): sizes taken from the stream *)\nDefinition gen_length_driven_makes : list string := [%s].\n", q(driven))
+	fmt.Fprintf(&b, "Definition gen_guarded_makes : list string := [%s].\n", q(guarded))
+	fmt.Fprintf(&b, "Definition gen_read_helper_guards : list string := [%s].\n", q(helperGuards))
+	fmt.Fprintf(&b, "(* every raw read of Serializer.go *)\nDefinition gen_raw_reads : list string := [\n  %s].\n", strings.Join(func() []string {
+		var it []string
+		for _, x := range rawReads {
+			it = append(it, coqStr(x))
+		}
+		return it
+	}(), ";\n  "))
 	if len(t.errs) > 0 {
 		b.WriteString("\n(* the source no longer has the shape the translator understands *)\nUNTRANSLATED.\n")
 	}
